@@ -9,6 +9,7 @@ pub mod mem;
 pub mod memrw;
 pub mod memts;
 pub mod scope;
+pub mod sel;
 pub mod selpure;
 pub mod thr;
 
@@ -27,6 +28,7 @@ pub fn find(name: &str) -> Option<LaneFn> {
         "memrw" => memrw::run,
         "memts" => memts::run,
         "scope" => scope::run,
+        "sel" => sel::run,
         "selpure" => selpure::run,
         "thr" => thr::run,
         _ => return None,
